@@ -370,6 +370,17 @@ func genSqlQuery(r *Rng, pool *leafPool, withPh bool) SqlQ {
 			q.ArgSets = append(q.ArgSets, args)
 		}
 		q.Prepared = r.Chance(1, 2)
+		if maxPh >= 2 && r.Chance(1, 3) {
+			// two executions in a row whose arguments differ only in where a NUL byte sits, then invalid UTF-8
+			mk := func(first, second string) []Arg {
+				a := []Arg{{S: hx(first)}, {S: hx(second)}}
+				for i := 3; i <= int(maxPh); i++ {
+					a = append(a, Arg{S: hx("z")})
+				}
+				return a
+			}
+			q.ArgSets = append(q.ArgSets, mk("x\x00", "y"), mk("x", "\x00y"), mk("caf\xe9", "\xff"), mk("caf\ufffd", "\ufffd"))
+		}
 	}
 	q.Text = hx(renderPQ(r, q.Tree))
 	return q
@@ -403,7 +414,43 @@ func runC12(rep *Report, r *Rng, tier string) {
 		}
 		runSqlCase(o, c, rep, "C12")
 	}
+	if tier == "thorough" {
+		// 200000 distinct query texts on ONE handle; each answer identifies its own text (anything that keys on a
+		// digest of the text shows up as another text's rows)
+		d := &DataSpec{Seed: r.U64(), NRows: 3000, Cols: []ColSpec{{Name: hx("a"), NVals: 1, Dist: "unique", Style: "ascii"}}}
+		rows := d.Materialize()
+		for i, rw := range rows {
+			rw["g"] = fmt.Sprint(i % 251)
+		}
+		base := scratch("sql-many.updog")
+		os.Remove(base)
+		w := updogWriterFromRows(base, rows)
+		if w == nil {
+			db, err := sql.Open("updog", "file:"+base)
+			if err == nil {
+				db.SetMaxOpenConns(1)
+				for i := 0; i < 200000 && rep.NViol() < 3; i++ {
+					v := i % 3000
+					pad := strings.Repeat(" ", i/3000) // the same query, textually different
+					text := fmt.Sprintf("a =%s \"%d\" ; g", pad, v)
+					want := fmt.Sprintf("ok cols=%s,%s types=TEXT,BIGINT r t%s,i1", hx("g"), hx("count"), hx(fmt.Sprint(v%251)))
+					if got := rowsString(db, text); got != want {
+						rep.Violate(Violation{Kind: "history", Signature: "C12:rows-mismatch", What: fmt.Sprintf("query text %q after %d other texts on the same handle", text, i), Expected: want, Actual: trunc(got, 300), Case: map[string]any{"many_texts": i}})
+					}
+				}
+				rep.Count("many-texts-handles")
+				db.Close()
+			}
+		}
+		os.Remove(base)
+	}
 	rep.OracleCalls = o.n
+}
+
+// updogWriterFromRows writes rows with the in-memory writer; nil on success
+func updogWriterFromRows(path string, rows []map[string]string) error {
+	_, err := buildIndexFile("mem", rows, path)
+	return err
 }
 
 func runC11(rep *Report, r *Rng, tier string) {
@@ -729,6 +776,47 @@ func runC17(rep *Report, r *Rng, tier string) {
 			rep.Note("stopped early after %d violations", rep.NViol())
 			return
 		}
+	}
+	// file names ending in option-like text, next to the plain name opened with that option
+	{
+		plain := scratch("drv-names.updog")
+		tricky := plain + ";preload=true"
+		copyFile(env.files[0], plain)
+		copyFile(env.files[1], tricky)
+		db1, _ := sql.Open("updog", "file:"+plain+"?preload=true")
+		db2, _ := sql.Open("updog", "file:"+tricky)
+		a1, a2, a3 := rowsString(db1, env.probe), rowsString(db2, env.probe), rowsString(db1, env.probe)
+		db1.Close()
+		db2.Close()
+		rep.Eval("tricky-names", true)
+		rep.Count("option-like-file-names")
+		if got, want := a1+" | "+a2+" | "+a3, env.expected[0]+" | "+env.expected[1]+" | "+env.expected[0]; got != want {
+			rep.Violate(Violation{Kind: "history", Signature: "C17:wrong-rows", What: "two files, one named like the other plus option text (x and x;preload=true), opened at the same time", Expected: trunc(want, 500), Actual: trunc(got, 500), Case: map[string]any{"names": "option-like"}})
+		}
+		for _, f := range []string{plain, tricky} {
+			if s := releasedProbe(f); s != "released" {
+				rep.Violate(Violation{Kind: "history", Signature: "C17:file-not-released", What: "file with option-like name still locked after close", Expected: "released", Actual: s, Case: map[string]any{"names": "option-like"}})
+			}
+			os.Remove(f)
+		}
+	}
+	// a data source whose option fails on first use (preload over a damaged bitmap): the query fails cleanly and
+	// nothing stays locked after the handle is closed
+	{
+		bad := scratch("drv-badpreload.updog")
+		makeDamaged(env.files[0], bad, Damage{Kind: "bolt", Bucket: true, S: "good", I: "good", V: "bad"})
+		db, _ := sql.Open("updog", "file:"+bad+"?preload=true")
+		first := rowsString(db, env.probe)
+		db.Close()
+		rep.Eval("failing-option", true)
+		rep.Count("failing-option-dsn")
+		if first != "err" {
+			rep.Violate(Violation{Kind: "history", Signature: "C17:query-error", What: "query through a DSN with preload=true on a file with an undecodable bitmap", Expected: "err", Actual: trunc(first, 300), Case: map[string]any{"dsn": "failing option"}})
+		}
+		if s := releasedProbe(bad); s != "released" {
+			rep.Violate(Violation{Kind: "history", Signature: "C17:file-not-released", What: "file still locked after a handle whose first use failed was closed", Expected: "released", Actual: s, Case: map[string]any{"dsn": "failing option"}})
+		}
+		os.Remove(bad)
 	}
 	// a data source opened before its file exists: queries fail cleanly; once the file is there the same handle
 	// and new handles on the same DSN work; after all handles are closed and the file has been replaced by another
